@@ -62,6 +62,8 @@ Ltac bind_inv H :=
   let a := fresh "a" in let H1 := fresh "Hb" in let H2 := fresh "Hk" in
   apply bind_ok in H; destruct H as (a & H1 & H2).
 
+Ltac bind_as H a H1 H2 := apply bind_ok in H; destruct H as (a & H1 & H2).
+
 (* ---------------------------------------------------------------------------------------------- *)
 (* lookup                                                                                          *)
 (* ---------------------------------------------------------------------------------------------- *)
